@@ -922,9 +922,24 @@ func (m *maker) olvmInput() Input {
 	shape := m.pick(10, "olvmshape")
 	switch {
 	case shape < 5:
-		p := olvmPrograms[m.pick(len(olvmPrograms), "prog")]
-		a.Data = cleanHex(p.code)
-		tags = append(tags, "olvm-create:"+p.name)
+		if k := m.pick(len(olvmPrograms)+2, "prog"); k >= len(olvmPrograms) {
+			// init code that CREATEs a child whose own init code reads the balance of a funded account this transaction has
+			// not touched yet and REVERTs, and then reads that balance again: an account creation is undone after another
+			// account was loaded behind it
+			d := ethcmn.BytesToAddress(m.f.B.Addr).Bytes()
+			child := append(append([]byte{0x73}, d...), 0x31, 0x50, 0x60, 0x00, 0x60, 0x00, 0xfd)
+			code := append([]byte{0x7b}, child...)                                                   // PUSH28 child
+			code = append(code, 0x60, 0x00, 0x52)                                                    // PUSH1 0 MSTORE
+			code = append(code, 0x60, 0x1c, 0x60, 0x04, 0x60, byte(k-len(olvmPrograms)), 0xf0, 0x50) // CREATE(value 0|1, 4, 28) POP
+			code = append(append(append(code, 0x73), d...), 0x31, 0x50, 0x00)                        // PUSH20 d BALANCE POP STOP
+			a.Data = code
+			a.Value = big.NewInt(int64(k - len(olvmPrograms)))
+			tags = append(tags, "olvm-create:create-reverted-after-touch")
+		} else {
+			p := olvmPrograms[k]
+			a.Data = cleanHex(p.code)
+			tags = append(tags, "olvm-create:"+p.name)
+		}
 		if m.pick(3, "wrapinit") == 0 {
 			// deploy as runtime code and call it later: here as init code only
 			a.Value = big.NewInt(int64(m.pick(3, "val")))
